@@ -10,6 +10,8 @@ def part(ctx):
     for i in range(ctx.n(40, 500)):
         h = dbgen.History(rng)
         h.warmup()
+        if not h.live:
+            continue
         a = rng.choice(h.live)
         # relatives of a: copy, pickle, other type, fold, subset of everything, a grown copy, None-vs-'None' names
         h.op_copy(a)
